@@ -8,8 +8,8 @@ from .c02_single import covers_pos, wf_result, blocks_of, obs_loc
 from .lib import LIB  # noqa
 
 
-def loc(S, name, n, strand, allow_overlap=False):
-    starts, ends = block_lists(S, name, n, allow_overlap=allow_overlap)
+def loc(S, name, n, strand, allow_overlap=False, nonempty=True):
+    starts, ends = block_lists(S, name, n, allow_overlap=allow_overlap, nonempty=nonempty)
     obj = S.new(COMPOUND, starts, ends, strand) if n > 1 else S.new(SINGLE, starts[0], ends[0], strand)
     return obj, starts, ends
 
@@ -22,10 +22,10 @@ class PairAlgebra(Case):
     props = ("C02",)
     func = COMPOUND + ".intersection"
 
-    def __init__(self, na, nb, op):
-        self.na, self.nb, self.op = na, nb, op
+    def __init__(self, na, nb, op, empties=False):
+        self.na, self.nb, self.op, self.empties = na, nb, op, empties
         self.tier = "thorough" if na + nb >= 5 else "quick"
-        self.name = f"{op}[{na} x {nb} blocks, all coordinates]"
+        self.name = f"{op}[{na} x {nb} blocks{', zero-length blocks allowed' if empties else ''}, all coordinates]"
         self.call = {"intersection": "a.intersection(b, match_strand=False)",
                      "minus": "a.minus(b, match_strand=False)",
                      "union": "a.union(b)",
@@ -67,13 +67,13 @@ class PairAlgebra(Case):
 
     def inputs(self, S):
         strand = strand_of(S, "strand")
-        a, as_, ae = loc(S, "a", self.na, strand)
+        a, as_, ae = loc(S, "a", self.na, strand, nonempty=not self.empties)
         b, bs, be = loc(S, "b", self.nb, strand)
         return NS(a=a, b=b, as_=as_, ae=ae, bs=bs, be=be, p=S.int("p"))
 
     def samples(self, rng):
-        d = sample_blocks(rng, "a", self.na)
-        d.update(sample_blocks(rng, "b", self.nb))
+        d = sample_blocks(rng, "a", self.na, length=(0, 1, 2, 4) if self.empties else (1, 2, 4))
+        d.update(sample_blocks(rng, "b", self.nb, length=(1, 2, 4, 9)))
         d.update(strand=rng.choice(["PLUS", "MINUS"]), p=rng.randint(0, 14))
         return d
 
@@ -172,11 +172,12 @@ class RelativeLocationForm(Case):
     props = ("C01",)
     func = COMPOUND + "._location_relative_to"
 
-    def __init__(self, nq, nl, optimize=True, overlapping_query=False):
-        self.nq, self.nl, self.optimize, self.ovq = nq, nl, optimize, overlapping_query
-        self.tier = "thorough" if nq + nl >= 4 else "quick"
+    def __init__(self, nq, nl, optimize=True, overlapping_query=False, loc_empties=False):
+        self.nq, self.nl, self.optimize, self.ovq, self.loc_empties = nq, nl, optimize, overlapping_query, loc_empties
+        self.tier = "thorough" if (nq + nl >= 4 and not loc_empties) else "quick"
         self.name = (f"location_relative_to[query {nq} block(s) -> location {nl} blocks, optimize_blocks={optimize}, "
                      + ("query blocks may overlap each other (multiplicity kept), " if overlapping_query else "")
+                     + ("location may contain zero-length blocks, " if loc_empties else "")
                      + "all coordinates]")
         self.call = f"(q.location_relative_to(loc, optimize_blocks={optimize}), loc.parent_to_relative_pos(p))"
         self.module = "location.location_impl"
@@ -192,15 +193,15 @@ class RelativeLocationForm(Case):
     def inputs(self, S):
         qstrand, lstrand = strand_of(S, "qstrand"), strand_of(S, "lstrand")
         q, qs, qe = loc(S, "q", self.nq, qstrand, allow_overlap=getattr(self, "ovq", False))
-        l, ls, le = loc(S, "loc", self.nl, lstrand)
+        l, ls, le = loc(S, "loc", self.nl, lstrand, nonempty=not getattr(self, "loc_empties", False))
         p = S.int("p")
         if getattr(self, "needs_common", True):
             S.assume(And(cov(qs, qe, p), cov(ls, le, p)))
         return NS(q=q, loc=l, qs=qs, qe=qe, ls=ls, le=le, p=p, qstrand=qstrand, lstrand=lstrand)
 
     def samples(self, rng):
-        d = sample_blocks(rng, "q", self.nq)
-        d.update(sample_blocks(rng, "loc", self.nl))
+        d = sample_blocks(rng, "q", self.nq, length=(1, 2, 4, 9))
+        d.update(sample_blocks(rng, "loc", self.nl, length=(0, 1, 2, 4) if getattr(self, "loc_empties", False) else (1, 2, 4)))
         both = [p for p in range(0, 40) if any(s <= p < e for s, e in zip(d["q_starts"], d["q_ends"]))
                 and any(s <= p < e for s, e in zip(d["loc_starts"], d["loc_ends"]))]
         d.update(qstrand=rng.choice(["PLUS", "MINUS"]), lstrand=rng.choice(["PLUS", "MINUS"]),
@@ -243,4 +244,5 @@ CASES += [CompoundIntervalFormMinus(2), CompoundIntervalFormMinus(3)]
 CASES += [RelativeLocationForm(1, 2), RelativeLocationForm(2, 2), RelativeLocationForm(1, 3),
           RelativeLocationForm(2, 2, optimize=False), RelativeLocationForm(3, 2),
           RelativeLocationForm(2, 1, overlapping_query=True), RelativeLocationForm(2, 2, overlapping_query=True),
-          RelativeLocationRefusal(1, 2), RelativeLocationRefusal(2, 2)]
+          RelativeLocationRefusal(1, 2), RelativeLocationRefusal(2, 2),
+          RelativeLocationForm(1, 3, loc_empties=True), PairAlgebra(3, 1, "intersection", empties=True)]
